@@ -72,9 +72,36 @@ JoinHolds(combo, on, filt) ==
                           IN a # Null /\ b # Null /\ a = b
   /\ \A k \in DOMAIN filt : CmpOK(filt[k].op, combo[filt[k].t][2][filt[k].c + 1], filt[k].v)
 JoinProject(combo, proj) == [i \in 1..Len(proj) |-> combo[proj[i][1]][2][proj[i][2] + 1]]
-(* bag of projected rows as a function row -> multiplicity *)
-JoinAnswerBag(ts, on, filt, proj) ==
+(* bag of projected rows as a function row -> multiplicity.  JoinAnswerBagRef is the definition (filter the cross    *)
+(* product); JoinAnswerBag computes the same set of combined rows table by table, looking partners up by the first   *)
+(* equality that links the new table to the ones already combined (the cross product of two 300-row tables costs     *)
+(* TLC minutes).  Both are compared on recorded statements when IOEnv.JOINREF is set (bin/checks/c11.py, thorough).  *)
+JoinAnswerBagRef(ts, on, filt, proj) ==
   LET good == {c \in Combos(ts) : JoinHolds(c, on, filt)}
+      outs == {JoinProject(c, proj) : c \in good}
+  IN [o \in outs |-> Cardinality({c \in good : JoinProject(c, proj) = o})]
+MaxOf(a, b) == IF a > b THEN a ELSE b
+RECURSIVE JoinRec(_, _, _, _, _)
+JoinRec(ts, on, filt, k, P) ==
+  IF k > Len(ts) THEN P
+  ELSE LET rows  == tables[ts[k]].rows
+           cand  == {<<i, rows[i]>> : i \in {j \in DOMAIN rows :
+                        \A f \in DOMAIN filt : filt[f].t = k => CmpOK(filt[f].op, rows[j][filt[f].c + 1], filt[f].v)}}
+           links == {j \in DOMAIN on : MaxOf(on[j][1], on[j][3]) = k}
+           OnOK(c) == \A j \in links : LET a == c[on[j][1]][2][on[j][2] + 1]
+                                            b == c[on[j][3]][2][on[j][4] + 1]
+                                        IN a # Null /\ b # Null /\ a = b
+           j0    == CHOOSE j \in links : TRUE
+           \* column of table k and <<table, column>> of the partner in the first linking equality
+           kc    == IF on[j0][1] = k THEN on[j0][2] ELSE on[j0][4]
+           ot    == IF on[j0][1] = k THEN on[j0][3] ELSE on[j0][1]
+           oc    == IF on[j0][1] = k THEN on[j0][4] ELSE on[j0][2]
+           byKey == [v \in {y[2][kc + 1] : y \in cand} |-> {y \in cand : y[2][kc + 1] = v}]
+           Partners(p) == IF links = {} \/ ot = k THEN cand
+                          ELSE IF p[ot][2][oc + 1] \in DOMAIN byKey THEN byKey[p[ot][2][oc + 1]] ELSE {}
+       IN JoinRec(ts, on, filt, k + 1, UNION {{p \o <<x>> : x \in {y \in Partners(p) : OnOK(p \o <<y>>)}} : p \in P})
+JoinAnswerBag(ts, on, filt, proj) ==
+  LET good == JoinRec(ts, on, filt, 1, {<<>>})
       outs == {JoinProject(c, proj) : c \in good}
   IN [o \in outs |-> Cardinality({c \in good : JoinProject(c, proj) = o})]
 BagOfSeq(s) == [x \in Range(s) |-> Count(s, x)]
